@@ -139,6 +139,22 @@ func genScript(r *gen.Rand, w *gen.Writer, safe bool) script {
 	return s
 }
 
+// genRelayScript: 1..3 With calls whose encoding crosses fiber's own request parser (bytes and levels
+// a verbatim client can return: no control bytes, level >= 32), duplicate keys included; no old input
+// (issued old input carries level 0 = NUL).
+func genRelayScript(r *gen.Rand, w *gen.Writer) script {
+	var s script
+	n := 1 + r.Intn(3)
+	for i := 0; i < n; i++ {
+		f := flash{genStr(r, true), genStr(r, true), genLevel(r, true)}
+		if i > 0 && r.Chance(1, 4) {
+			f.key = s.flashes[r.Intn(i)].key
+		}
+		s.flashes = append(s.flashes, f)
+	}
+	return s
+}
+
 // ---- msgpack builders for the decode stream -----------------------------------------------------
 
 func mpStr(s string) []byte {
